@@ -16,8 +16,9 @@
   propagates the subclass and its attributes through arithmetic (`__array_finalize__`), so user
   callables are functions on tagged values.
 
-  Geometry equality (`Geometry.__eq__`) is represented by an identifier `gid`: two geometries are
-  `==` iff their `gid`s agree, and then they have the same maps (assumption stated in docs/C12.md).
+  Geometry objects are named by an identifier `gid`; the relation `g == G` (`Geometry.__eq__`,
+  which is neither symmetric nor total) is carried explicitly by `Geom.eqTrue` / `Geom.eqRaises`.
+  Geometries that compare equal are assumed to have the same maps (docs/C12.md).
 
   The model is faithful to the code including two behaviours that the property does not allow:
   * `_apply_func` on a `Samples` object always passes `is_par=True` (both the `is_par` argument and
@@ -29,7 +30,7 @@
 namespace CuqiVerif.C12
 
 /-- Exception classes that the modelled code raises. -/
-inductive Err | notImplemented | valueError | typeError | indexError
+inductive Err | notImplemented | valueError | typeError | indexError | keyError
   deriving DecidableEq, Repr
 
 def Err.toString : Err → String
@@ -37,6 +38,7 @@ def Err.toString : Err → String
   | .valueError => "ValueError"
   | .typeError => "TypeError"
   | .indexError => "IndexError"
+  | .keyError => "KeyError"
 
 /-- What a `CUQIarray` carries besides its numbers. -/
 structure Tag where
@@ -51,7 +53,12 @@ structure Val (α : Type) where
 
 def Val.plain {α : Type} (a : α) : Val α := ⟨a, none⟩
 
-/-- A geometry: the equality class, `par2fun`, `fun2par` (may raise: `NotImplementedError` of the
+/-- The two maps of a geometry as an array carries them (`self.geometry.par2fun / fun2par`). -/
+structure Maps (α : Type) where
+  p2f : α → α
+  f2p : α → Except Err α
+
+/-- A geometry: an identifier of the object, `par2fun`, `fun2par` (may raise: `NotImplementedError` of the
     base class, `ValueError` of a `MappedGeometry` without `imap`), whether its *type* is in
     `_get_identity_geometries()`, the optional user attribute `gradient(direction, wrt_par)`,
     and whether numpy keeps the CUQIarray subclass through `par2fun` / `fun2par`. -/
@@ -64,34 +71,47 @@ structure Geom (α : Type) where
   parDim : Nat
   p2fKeeps : Bool := true
   f2pKeeps : Bool := true
-  /-- identifiers of the geometries `g` for which evaluating `g == self` raises (`IndexError` in
-      `Geometry._all_values_equal` when two list-valued attributes have different lengths, e.g.
-      `Discrete(3) == Discrete(4)`) -/
-  eqRaises : List Nat := []
+  /-- the *other* geometry objects `g` for which `g == self` is `True`, with `g`'s own maps
+      (`Geometry.__eq__` is neither symmetric nor total nor does it imply equal maps — e.g.
+      `_DefaultGeometry1D(6) == KLExpansion(grid of 6 nodes)` — so the relation is carried
+      explicitly; the left operand is the array's geometry, whose maps `CUQIarray.funvals` /
+      `.parameters` use) -/
+  eqTrue : List (Nat × Maps α) := []
+  /-- identifiers of the geometries `g` for which evaluating `g == self` raises, with the class
+      (`IndexError` in `Geometry._all_values_equal` when two list-valued attributes have different
+      lengths, e.g. `Discrete(3) == Discrete(4)`; `KeyError` when `g` has an instance attribute that
+      `self` lacks, e.g. a user-assigned `gradient`) -/
+  eqRaises : List (Nat × Err) := []
+
+def Geom.maps {α : Type} (G : Geom α) : Maps α := ⟨G.p2f, G.f2p⟩
 
 section core
 variable {α β : Type}
 
-/-- `CUQIarray.funvals` of an array whose geometry is (`==` to) `G`. -/
-def arrFunvals (G : Geom α) (d : α) (t : Tag) : Val α :=
+/-- `CUQIarray.funvals` of an array whose own geometry has the maps `G`. -/
+def arrFunvals (G : Maps α) (d : α) (t : Tag) : Val α :=
   ⟨if t.isPar then G.p2f d else d, some ⟨false, t.geom⟩⟩
 
-/-- `CUQIarray.parameters` of an array whose geometry is (`==` to) `G`. -/
-def arrParameters (G : Geom α) (d : α) (t : Tag) : Except Err (Val α) :=
+/-- `CUQIarray.parameters` of an array whose own geometry has the maps `G`. -/
+def arrParameters (G : Maps α) (d : α) (t : Tag) : Except Err (Val α) :=
   (if t.isPar then pure d else G.f2p d) >>= fun p => pure ⟨p, some ⟨true, t.geom⟩⟩
 
 /-- `val.geometry == geometry` for a CUQIarray `val` -/
-def geomEq (t : Tag) (G : Geom α) : Except Err Bool :=
-  if G.eqRaises.contains t.geom then throw Err.indexError else pure (t.geom == G.gid)
+def geomEq (t : Tag) (G : Geom α) : Except Err (Option (Maps α)) :=
+  match G.eqRaises.lookup t.geom with
+  | some e => throw e
+  | none => pure (if t.geom = G.gid then some G.maps else G.eqTrue.lookup t.geom)
 
 /-- `Model._2fun(x, geometry, is_par)` -/
 def toFun (G : Geom α) (x : Val α) (isPar : Bool) : Except Err (Val α) :=
   match x.tag with
   | some t =>
       geomEq t G >>= fun eq =>
-      if eq then pure (arrFunvals G x.data t)
-      else if isPar then pure ⟨G.p2f x.data, if G.p2fKeeps then x.tag else none⟩
-      else pure x
+      match eq with
+      | some own => pure (arrFunvals own x.data t)
+      | none =>
+        if isPar then pure ⟨G.p2f x.data, if G.p2fKeeps then x.tag else none⟩
+        else pure x
   | none => if isPar then pure ⟨G.p2f x.data, none⟩ else pure x
 
 /-- `Model._2par(val, geometry, to_CUQIarray, is_par)` -/
@@ -99,9 +119,11 @@ def toPar (G : Geom α) (v : Val α) (toArr : Bool) (isPar : Bool) : Except Err 
   (match v.tag with
    | some t =>
        geomEq t G >>= fun eq =>
-       if eq then arrParameters G v.data t
-       else if !isPar then G.f2p v.data >>= fun p => pure ⟨p, if G.f2pKeeps then v.tag else none⟩
-       else pure v
+       match eq with
+       | some own => arrParameters own v.data t
+       | none =>
+         if !isPar then G.f2p v.data >>= fun p => pure ⟨p, if G.f2pKeeps then v.tag else none⟩
+         else pure v
    | none => if !isPar then G.f2p v.data >>= fun p => pure ⟨p, none⟩ else pure v) >>= fun r =>
   pure (if toArr then ⟨r.data, some ⟨true, G.gid⟩⟩ else r)
 
